@@ -45,6 +45,10 @@ def cases(tier, seed):
     for i in range(20 if tier == 'quick' else 300):
         yield dict(kind='reject-keeps-talking', triple=[rnd.choice([1, 2]), rnd.choice([1, 2, 3]),
                                                         rnd.randrange(1, 11)], seed=seed * 11 + i)
+    for i in range(150 if tier == 'quick' else 5000):
+        yield dict(kind='peer-abort-burst', source=rnd.choice([0, 2, 2, 1]),
+                   reason=rnd.choice([0, 1, 2, 6, 200]), after=rnd.choice(['ac', 'echo', 'echo']),
+                   nrsp=rnd.choice([1, 1, 3]), seed=seed * 13 + i)
     points = ['before', 'between', 'during']
     m = 3000 if tier == 'quick' else 100000
     for i in range(m):
@@ -145,6 +149,63 @@ def run_case(case):
             ds.PatientName = 'P' * n
             return ds
 
+        if kind == 'peer-abort-burst':
+            # a foreign acceptor answers and aborts in ONE write, then closes at once: the
+            # response must still be delivered and the abort must carry the peer's fields
+            src, rsn = case['source'], case['reason']
+
+            def on_est(peer):
+                if case['after'] == 'ac':
+                    peer.send(rc.enc_abort(src, rsn))
+                    peer.ended = 'aborted-by-script'
+                    peer.close()
+
+            def on_msg(peer, m):
+                f = m['fields']
+                rsp = b''
+                for _ in range(case['nrsp']):
+                    rsp += rc.enc_pdata([(m['pcid'], 3, rc.enc_command(
+                        {0x0002: rc.VERIFICATION, 0x0100: 0x8030, 0x0120: f.get(0x0110),
+                         0x0800: 0x0101, 0x0900: 0}))])
+                peer.send(rsp + rc.enc_abort(src, rsn))
+                peer.close()
+
+            class Acc(peers.ScriptedAcceptor):
+                def serve(self):
+                    if self.sock.closed:
+                        return
+                    try:
+                        peers.ScriptedAcceptor.serve(self)
+                    except OSError:
+                        pass
+            world.serve_peer(ADDR, lambda sock: Acc(world.sim, sock, on_message=on_msg,
+                                                    on_established=on_est))
+            got = {}
+
+            def user2():
+                try:
+                    with cli.request_association(remote) as assoc:
+                        got['established'] = True
+                        got['st'] = int(assoc.get_scu(rc.VERIFICATION)(1))
+                        for j in range(case['nrsp'] - 1):
+                            assoc.receive()
+                        assoc.receive()
+                except Exception as e:  # pylint: disable=broad-except
+                    got['exc'] = e
+            world.net.listeners.pop(ADDR, None) if False else None
+            world.spawn(user2, 'user')
+            world.run(tmax=400)
+            world.drain(2.0)
+            asceprovider.Association._get_dul_message = orig
+            e = got.get('exc')
+            if case['after'] == 'echo' and got.get('st') != 0:
+                v('response-before-abort-lost', 'echo status %r; exc %r' % (got.get('st'), e))
+            if not isinstance(e, exceptions.AssociationAbortedError):
+                v('abort-not-surfaced-at-requestor', 'user saw %r' % (e,))
+            elif (e.source, e.reason_diag) != (src, rsn):
+                v('abort-fields-not-preserved', 'peer sent (%d,%d) surfaced %r' % (
+                    src, rsn, (e.source, e.reason_diag)))
+            return _fin(world, viol, case, wire)
         if kind == 'reject-keeps-talking':
             def script(peer):
                 p = peer.associate()
